@@ -39,6 +39,10 @@ pub struct Scn {
     /// a second service built from the same layer: it must have its own permits
     #[serde(default)]
     pub two_services: bool,
+    /// seed of the order in which the builder's setters are called (0 = as in the docs); each
+    /// setter is also called once more, earlier, with another value (the last call wins)
+    #[serde(default)]
+    pub order: u64,
 }
 
 pub fn gen(rng: &mut Rng) -> Scn {
@@ -80,6 +84,7 @@ pub fn gen(rng: &mut Rng) -> Scn {
         }
     }
     Scn {
+        order: if rng.chance(1, 3) { rng.next_u64() | 1 } else { 0 },
         two_services,
         window,
         limit,
@@ -157,15 +162,29 @@ pub fn run(s: &Scn, ctx: &mut RunCtx, prefix: &'static str) -> RunOutput {
                 );
             }
         });
-        let mut b = RateLimiterLayer::builder()
-            .limit_for_period(scn.limit as usize)
-            .refresh_period(Duration::from_millis(scn.period_ms))
-            .timeout_duration(if scn.timeout_ms == u64::MAX { Duration::MAX } else { Duration::from_millis(scn.timeout_ms) })
-            .window_type(match scn.window {
-                0 => WindowType::Fixed,
-                1 => WindowType::SlidingLog,
-                _ => WindowType::SlidingCounter,
-            });
+        let mut b = RateLimiterLayer::builder();
+        let mut order: Vec<usize> = (0..4).collect();
+        if scn.order != 0 {
+            let mut r = Rng::new(scn.order);
+            for i in (1..order.len()).rev() {
+                let j = r.below(i as u64 + 1) as usize;
+                order.swap(i, j);
+            }
+            // decoys: overwritten by the real settings below
+            b = b.limit_for_period(scn.limit as usize + 3).refresh_period(Duration::from_millis(7)).timeout_duration(Duration::from_millis(1)).window_type(if scn.window == 0 { WindowType::SlidingLog } else { WindowType::Fixed });
+        }
+        for k in order {
+            b = match k {
+                0 => b.limit_for_period(scn.limit as usize),
+                1 => b.refresh_period(Duration::from_millis(scn.period_ms)),
+                2 => b.timeout_duration(if scn.timeout_ms == u64::MAX { Duration::MAX } else { Duration::from_millis(scn.timeout_ms) }),
+                _ => b.window_type(match scn.window {
+                    0 => WindowType::Fixed,
+                    1 => WindowType::SlidingLog,
+                    _ => WindowType::SlidingCounter,
+                }),
+            };
+        }
         if scn.listener_panic {
             b = b
                 .on_permit_acquired(|_| {
